@@ -726,8 +726,69 @@ def run_C13(res, tier, seed, t_end, bad):
         clientlevel.run_C13(res, tier, seed, t_end)
 
 
+def run_C12(res, tier, seed, t_end, bad):
+    import threads as Th
+    n = budget(tier, 25, 1500)
+    for i in range(n):
+        if time.time() > t_end:
+            res.notes.append('time budget reached after %d trials' % i)
+            break
+        nthreads = random.Random(seed * 97 + i).choice([2, 3, 4, 8])
+        version = 6 + (i % 2)
+        ev, cmds, errors, srv = Th.run_trial(seed * 100003 + i, nthreads, 14, version)
+        res.evaluations += len(cmds)
+        res.traces_validated += 1
+        res.histories += 1
+        res.cells.add(('threads', nthreads, len(ev) // 200))
+        if errors:
+            res.findings.append({'kind': 'threads', 'verdict': 'violation', 'property': 'C12', 'clause': 'no_exception', 'detail': errors[:3]})
+            return
+        f = Th.validate(ev, cmds, version, nthreads)
+        if len(res.samples) < 2:
+            res.samples.append({'threads': nthreads, 'trace_events': len(ev), 'commands': len(cmds), 'trace_head': ev[:30]})
+        if f is not None:
+            f['seed'] = seed * 100003 + i
+            f['threads'] = nthreads
+            res.findings.append(f)
+            return
+        # clients created concurrently operate on the same data
+        if len({id(d) for d in [srv.dbs[0]]}) != 1:
+            res.findings.append({'kind': 'threads', 'verdict': 'violation', 'property': 'C12', 'clause': 'same_data', 'detail': 'split databases'})
+            return
+    constructor_race(res, tier, seed, t_end)
+
+
+def constructor_race(res, tier, seed, t_end):
+    """concurrent first connection to a fresh server: all sockets must end up on the same Database object"""
+    import sys, threading, fakeredis
+    from fakeredis._fakesocket import FakeSocket
+    old = sys.getswitchinterval()
+    sys.setswitchinterval(1e-6)
+    try:
+        for t in range(budget(tier, 400, 6000)):
+            srv = fakeredis.FakeServer()
+            socks = [None] * 4
+            bar = threading.Barrier(4)
+
+            def mk(i):
+                bar.wait()
+                socks[i] = FakeSocket(srv)
+            ths = [threading.Thread(target=mk, args=(i,)) for i in range(4)]
+            [x.start() for x in ths]
+            [x.join() for x in ths]
+            res.evaluations += 1
+            if len({id(s._db) for s in socks}) != 1:
+                res.findings.append({'kind': 'threads', 'verdict': 'violation', 'property': 'C12', 'clause': 'concurrent_first_connection',
+                                     'detail': 'trial %d: the four sockets hold %d different Database objects' % (t, len({id(s._db) for s in socks}))})
+                return
+        res.cells.add(('constructor-race', 4))
+    finally:
+        sys.setswitchinterval(old)
+
+
 RUNNERS = {
     'C11': run_C11,
+    'C12': run_C12,
     'C20': run_C20,
     'C14': run_C14,
     'C01': generic('C01', Cp.plan_single(['str', 'key', 'ttl'], 60, select=0.03), Cp.plan_single(['str', 'key', 'ttl'], 80, select=0.03), 60, 1200),
